@@ -200,6 +200,10 @@ def count_grouped(rng, good, tag):
             f.pop()
         elif y < 0.25 and f:
             f.insert(rng.randrange(len(f)), kv("songs", "1"))
+        elif y < 0.4:
+            # a group whose two lines carry the SAME known field (valid values)
+            k = rng.choice(["songs", "playtime"])
+            f += [kv(tag, "dup"), kv(k, "1"), kv(k, "1")]
     return f
 
 
